@@ -54,6 +54,11 @@ type Property struct {
 	Thorough func(c *Ctx)
 	// Mutants is the sensitivity suite of the property.
 	Mutants []Mutant
+	// Benign is the specificity suite: behaviour-preserving variants of the
+	// code (renames, extracted helpers, reordered independent statements,
+	// if↔switch) on which every obligation must still hold. Rule and KeyPart
+	// are unused.
+	Benign []Mutant
 	// Configs lists the build configurations of the thorough tier
 	// ("goos/goarch"); empty means the default list.
 	Configs []string
@@ -295,7 +300,7 @@ type RunResult struct {
 type MutantResult struct {
 	Name   string `json:"name"`
 	Rule   string `json:"rule"`
-	Status string `json:"status"` // killed | survived | stale | error
+	Status string `json:"status"` // killed | survived | stale | error | quiet | false-alarm
 	Detail string `json:"detail,omitempty"`
 }
 
@@ -383,13 +388,19 @@ func (r *RunResult) Finish() int {
 	}
 
 	selfTestFailed := false
-	killed, stale, survived := 0, 0, 0
+	killed, stale, survived, quiet, falseAlarms := 0, 0, 0, 0, 0
 	for _, m := range r.Mutants {
 		switch m.Status {
 		case "killed":
 			killed++
 		case "stale":
 			stale++
+		case "quiet":
+			quiet++
+		case "false-alarm":
+			falseAlarms++
+			selfTestFailed = true
+			fmt.Printf("SELFTEST-FALSE-ALARM property=%s variant=%s %s\n", r.Prop.ID, m.Name, m.Detail)
 		default:
 			survived++
 			selfTestFailed = true
@@ -428,7 +439,10 @@ func (r *RunResult) Finish() int {
 		cov["notes"] = r.Notes
 	}
 	if len(r.Mutants) > 0 {
-		cov["sensitivity_suite"] = map[string]any{"mutants": len(r.Mutants), "killed": killed, "stale": stale, "survived": survived, "results": r.Mutants}
+		cov["sensitivity_suite"] = map[string]any{"mutants": len(r.Mutants) - quiet - falseAlarms, "killed": killed, "stale": stale, "survived": survived, "results": r.Mutants}
+		if quiet+falseAlarms > 0 {
+			cov["specificity_suite"] = map[string]any{"benign_variants": quiet + falseAlarms, "quiet": quiet, "false_alarms": falseAlarms}
+		}
 	}
 	for k, v := range r.Cross {
 		cov[k] = v
@@ -459,7 +473,10 @@ func (r *RunResult) Finish() int {
 		fmt.Printf("  %-8s %d/%d\n", ru, perRule[ru][1], perRule[ru][0])
 	}
 	if len(r.Mutants) > 0 {
-		fmt.Printf("  sensitivity suite: %d mutants, %d killed, %d stale, %d survived\n", len(r.Mutants), killed, stale, survived)
+		fmt.Printf("  sensitivity suite: %d mutants, %d killed, %d stale, %d survived\n", len(r.Mutants)-quiet-falseAlarms, killed, stale, survived)
+		if quiet+falseAlarms > 0 {
+			fmt.Printf("  specificity suite: %d behaviour-preserving variants, %d quiet, %d false alarms\n", quiet+falseAlarms, quiet, falseAlarms)
+		}
 	}
 	if violations > 0 {
 		return 1
